@@ -234,7 +234,9 @@ class Connection(object):
         return next(self._seqcounter)
 
     def _send(self, msg, seq, args):  # IO
-        data = brine.dump((msg, seq, args))
+        self._send_raw(brine.dump((msg, seq, args)))
+
+    def _send_raw(self, data):  # IO
         # GC might run while sending data
         # if so, a BaseNetref.__del__ might be called
         # BaseNetref.__del__ must call asyncreq,
@@ -322,6 +324,9 @@ class Connection(object):
             handler, args = raw_args
             args = self._unbox(args)
             res = self._HANDLERS[handler](self, *args)
+            # encode the reply inside the try: a result that cannot be boxed or serialized
+            # must be answered with an exception rather than escape and kill the connection
+            reply = brine.dump((consts.MSG_REPLY, seq, self._box(res)))
         except:  # TODO: revist how to catch handle locally, this should simplify when py2 is dropped
             # need to catch old style exceptions too
             t, v, tb = sys.exc_info()
@@ -335,7 +340,7 @@ class Connection(object):
                 raise
             self._send(consts.MSG_EXCEPTION, seq, self._box_exc(t, v, tb))
         else:
-            self._send(consts.MSG_REPLY, seq, self._box(res))
+            self._send_raw(reply)
 
     def _box_exc(self, typ, val, tb):  # dispatch?
         return vinegar.dump(typ, val, tb,
